@@ -270,9 +270,9 @@ def fixed_cases():
 def gen(rng, tier):
     n = 1 if tier == "quick" else 15
     cases = fixed_cases()
-    for _ in range(2200 * n):
+    for _ in range(5000 * n):
         cases.append(obs_case(rng, tier))
-    for _ in range(500 * n):
+    for _ in range(1000 * n):
         cases.append(lv_case(rng, tier))
     return cases
 
